@@ -232,6 +232,33 @@ pub fn run(ctx: &mut Ctx) {
             ctx.check("substr:other", &r, &null);
         }
     }
+    // straddle strings: a multi-byte character across every block boundary of 8 .. 256 bytes; start and length
+    // at, just before and just after that character, counted from both ends, with the partition law
+    for (st, ci) in al::straddle_strings() {
+        if !ctx.mine() {
+            continue;
+        }
+        let n = st.chars().count() as i64;
+        let ci = ci as i64;
+        for start in [ci - 1, ci, ci + 1, ci - n, ci + 1 - n, 0, -1] {
+            ctx.edge();
+            ctx.check("substr:straddle:2", &json!({"substr": [st, start]}), &null);
+            for len in [0i64, 1, 2, ci - start, ci - start + 1, -1, -(n - ci), -(n - ci - 1), n] {
+                ctx.check("substr:straddle:3", &json!({"substr": [{"var": "s"}, start, len]}), &json!({"s": st}));
+            }
+        }
+        // substr(s,0,i) ++ substr(s,i) == s at the straddling character
+        for i in [ci, ci + 1] {
+            let a = ctx.exec(&json!({"substr": [st, 0, i]}), &null);
+            let b = ctx.exec(&json!({"substr": [st, i]}), &null);
+            if let (Some(Value::String(x)), Some(Value::String(y))) = (a.ok(), b.ok()) {
+                if format!("{}{}", x, y) != st {
+                    ctx.law_fail("law:substr-partition", &json!({"substr": [st, 0, i]}), &null, "the two pieces give the string back".into(), format!("{:?} ++ {:?}", x, y));
+                }
+            }
+        }
+        ctx.check("cat:straddle", &json!({"cat": [st, "|", {"var": "s"}]}), &json!({"s": st}));
+    }
     crate::spaces::render_probes(ctx, &["cat", "substr"]);
     crate::spaces::width_probes(ctx);
     crate::spaces::type_grid_probes(ctx, &["cat", "substr"]);
